@@ -22,7 +22,7 @@ def mk_tree(pts, k):
     from swcgeom.core import Tree
     n = len(pts)
     pid = [-1] + [(i - 1 if (i + k) % 2 else 0) for i in range(1, n)]
-    return Tree(n, id=np.arange(n, dtype=np.int32), pid=np.array(pid, dtype=np.int32), type=np.array([1 + (i + k) % 4 for i in range(n)], dtype=np.int32),
+    return Tree(n, source=lib.SRC, id=np.arange(n, dtype=np.int32), pid=np.array(pid, dtype=np.int32), type=np.array([1 + (i + k) % 4 for i in range(n)], dtype=np.int32),
                 x=np.array([p[0] for p in pts], dtype=np.float32), y=np.array([p[1] for p in pts], dtype=np.float32),
                 z=np.array([p[2] for p in pts], dtype=np.float32), r=np.array([0.5 + i for i in range(n)], dtype=np.float32))
 
